@@ -189,6 +189,29 @@ def r06_2(prog, rep, rid='R06.2'):
                             % len(callers))
 
 
+def _linear(e):
+    """(coefficients {name: int}, constant) of an integer-linear expression
+    over plain names, or None"""
+    if isinstance(e, ast.Constant) and isinstance(e.value, int) and \
+            not isinstance(e.value, bool):
+        return {}, e.value
+    if isinstance(e, ast.Name):
+        return {e.id: 1}, 0
+    if isinstance(e, ast.UnaryOp) and isinstance(e.op, ast.USub):
+        x = _linear(e.operand)
+        return None if x is None else ({k: -v for k, v in x[0].items()}, -x[1])
+    if isinstance(e, ast.BinOp) and isinstance(e.op, (ast.Add, ast.Sub)):
+        l, r = _linear(e.left), _linear(e.right)
+        if l is None or r is None:
+            return None
+        sg = 1 if isinstance(e.op, ast.Add) else -1
+        co = dict(l[0])
+        for k, v in r[0].items():
+            co[k] = co.get(k, 0) + sg * v
+        return co, l[1] + sg * r[1]
+    return None
+
+
 def _origin(g, e, at):
     """unparse of an expression after following single reaching definitions
     of plain names (flow-sensitive, unlike Deps)"""
@@ -231,7 +254,7 @@ def r06_3(prog, rep, rid='R06.3'):
         a = g.nodes[tid].ast
         if isinstance(a, ast.Compare) and len(a.ops) == 1 and \
                 isinstance(a.ops[0], (ast.In, ast.NotIn)):
-            v = prog.fold(f.module, a.comparators[0])
+            v = prog.fold(f.module, a.comparators[0], f.cls)
             if v is not UNKNOWN and {done, failed} <= set(v) and \
                     _origin(g, a.left, tid) in ('self.state', 'self._state'):
                 if (isinstance(a.ops[0], ast.In) and lab == 'F') or \
@@ -244,14 +267,26 @@ def r06_3(prog, rep, rid='R06.3'):
               'operand, or with the wrong polarity)', loc=f.loc(W.ast),
               history='a task is DONE; a late AGENT_EXECUTING notification '
               'makes Task.state non-final again')
-    # (2) single step
+    # (2) single step: a test that is linear in the two state values,
+    #     equivalent to  target_value - current_value == 1
     step = None
+    lin = None
     for n in g.nodes:
         if n.kind == 'test' and isinstance(n.ast, ast.Compare) and \
-                len(n.ast.ops) == 1 and isinstance(n.ast.left, ast.BinOp) and \
-                isinstance(n.ast.left.op, ast.Sub) and \
-                isinstance(n.ast.comparators[0], ast.Constant):
-            step = n
+                len(n.ast.ops) == 1 and \
+                isinstance(n.ast.ops[0], (ast.Eq, ast.NotEq, ast.Lt, ast.Gt,
+                                          ast.LtE, ast.GtE)):
+            l = _linear(n.ast.left)
+            r = _linear(n.ast.comparators[0])
+            if l is None or r is None:
+                continue
+            co = dict(l[0])
+            for k, v in r[0].items():
+                co[k] = co.get(k, 0) - v
+            co = {k: v for k, v in co.items() if v}
+            const = l[1] - r[1]
+            if len(co) == 2 and sorted(co.values()) == [-1, 1]:
+                step, lin = n, (co, const)
     if step is None:
         rep.bad(rid, f, 'update:single-step', 'Task._update has no single-step '
                 'test (`target value - current value != 1` => raise): a '
@@ -260,18 +295,35 @@ def r06_3(prog, rep, rid='R06.3'):
                 'callbacks never see the states in between')
     else:
         a = step.ast
-        op, c = a.ops[0], a.comparators[0].value
-        bad_lab = None
-        if c == 1 and isinstance(op, ast.NotEq):
-            bad_lab = 'T'
-        elif c == 1 and isinstance(op, ast.Eq):
-            bad_lab = 'F'
+        op = a.ops[0]
+        co, const = lin
+        pos = [k for k, v in co.items() if v == 1][0]
+        neg = [k for k, v in co.items() if v == -1][0]
         dn = Deps(f.node, implicit=False)
-        l_dep = dn.expr_depends(a.left.left)
-        r_dep = dn.expr_depends(a.left.right)
-        dir_ok = "task_dict['state']" in l_dep and (
-            'self.state' in r_dep or 'self._state' in r_dep) and \
-            "task_dict['state']" not in r_dep
+
+        def dep_of(nm):
+            return dn.closure(nm) | {nm}
+        # orientation: which of the two names is the target value
+        p_t = "task_dict['state']" in dep_of(pos)
+        n_t = "task_dict['state']" in dep_of(neg)
+        p_c = bool({'self.state', 'self._state'} & dep_of(pos))
+        n_c = bool({'self.state', 'self._state'} & dep_of(neg))
+        # pos - neg + const  OP  0 ; with pos = target: target - current + const
+        bad_lab = None
+        dir_ok = False
+        if p_t and n_c and not (n_t and not p_c):
+            dir_ok = True
+            want = -1          # target - current - 1 == 0
+        elif n_t and p_c:
+            dir_ok = True
+            want = 1           # current - target + 1 == 0
+        else:
+            want = None
+        if want is not None and const == want:
+            if isinstance(op, ast.NotEq):
+                bad_lab = 'T'
+            elif isinstance(op, ast.Eq):
+                bad_lab = 'F'
         raises = False
         if bad_lab:
             for e in g.succ[step.id]:
@@ -284,9 +336,10 @@ def r06_3(prog, rep, rid='R06.3'):
                   construct='update:single-step', message='Task._update: the '
                   'single-step test `%s` does not reject every transition '
                   'other than target = current + 1 (%s)' % (
-                      short(a, 50), 'wrong operator/constant' if not bad_lab
-                      else 'operands not target - current' if not dir_ok
-                      else 'the offending branch does not raise'),
+                      short(a, 50), 'operands not target / current state '
+                      'values' if not dir_ok else 'wrong operator/constant'
+                      if not bad_lab else 'the offending branch does not '
+                      'raise'),
                   loc=f.loc(a), history='NEW -> AGENT_EXECUTING (or a step '
                   'backwards) is applied; callbacks see states out of order')
         # every path to the write for a non-final target without `reconnect`
@@ -298,7 +351,7 @@ def r06_3(prog, rep, rid='R06.3'):
             if n.kind == 'test' and isinstance(n.ast, ast.Compare) and \
                     len(n.ast.ops) == 1 and \
                     isinstance(n.ast.ops[0], (ast.In, ast.NotIn)):
-                v = prog.fold(f.module, n.ast.comparators[0])
+                v = prog.fold(f.module, n.ast.comparators[0], f.cls)
                 if v is not UNKNOWN and set(v) == {failed, canceled}:
                     fin.append((n.id, 'F' if isinstance(n.ast.ops[0],
                                                         ast.NotIn) else 'T'))
@@ -409,6 +462,21 @@ def r06_3(prog, rep, rid='R06.3'):
                         c.func.attr == 'append' and
                         unparse(c.func.value) == pl and c.args and
                         unparse(c.args[0]) == tgt_p]
+                # passed += [target] / passed.extend([target])
+                for x in walk(fp.node):
+                    if isinstance(x, ast.AugAssign) and \
+                            isinstance(x.op, ast.Add) and \
+                            unparse(x.target) == pl and \
+                            isinstance(x.value, (ast.List, ast.Tuple)) and \
+                            [unparse(e) for e in x.value.elts] == [tgt_p]:
+                        last.append(x)
+                    if isinstance(x, ast.Call) and \
+                            isinstance(x.func, ast.Attribute) and \
+                            x.func.attr == 'extend' and \
+                            unparse(x.func.value) == pl and x.args and \
+                            isinstance(x.args[0], (ast.List, ast.Tuple)) and \
+                            [unparse(e) for e in x.args[0].elts] == [tgt_p]:
+                        last.append(x)
                 rep.check(okb and len(last) == 1, rid, fp, 'passed = states '
                           'of range(current+1, target) + [target]',
                           construct='progress:range', message='_task_state_'
@@ -468,7 +536,7 @@ def _exempt_targets(prog):
                 len(n.ast.ops) == 1 and \
                 isinstance(n.ast.ops[0], (ast.In, ast.NotIn)) and \
                 'target' in unparse(n.ast.left):
-            v = prog.fold(f.module, n.ast.comparators[0])
+            v = prog.fold(f.module, n.ast.comparators[0], f.cls)
             if v is not UNKNOWN and isinstance(v, (list, tuple)) and \
                     isinstance(n.ast.ops[0], ast.NotIn):
                 return set(v)
@@ -615,9 +683,9 @@ def r06_5(prog, rep, rid='R06.5'):
     oks = False
     for tid, lab in guards(g, pn.id, start=start):
         t = g.nodes[tid].ast
-        if isinstance(t, ast.Compare) and len(t.ops) == 1 and \
-                {unparse(t.left), unparse(t.comparators[0])} == \
-                {unparse(a[1]), unparse(a[2])} if len(a) == 3 else False:
+        if isinstance(t, ast.Compare) and len(t.ops) == 1 and len(a) == 3 and \
+                {_origin(g, t.left, tid), _origin(g, t.comparators[0], tid)} \
+                == {unparse(origin(a[1])), unparse(origin(a[2]))}:
             if (isinstance(t.ops[0], ast.Eq) and lab == 'F') or \
                     (isinstance(t.ops[0], ast.NotEq) and lab == 'T'):
                 oks = True
@@ -776,11 +844,11 @@ def run(prog, rep, tier):
     rep.assumptions = ['no other module writes Task._state through setattr '
                        'with a computed name',
                        'ru pubsub invokes _state_sub_cb once per message']
-    r06_1(prog, rep)
-    r06_2(prog, rep)
-    r06_3(prog, rep)
-    r06_4(prog, rep)
-    r06_5(prog, rep)
+    rep.attempt(r06_1, prog, rep)
+    rep.attempt(r06_2, prog, rep)
+    rep.attempt(r06_3, prog, rep)
+    rep.attempt(r06_4, prog, rep)
+    rep.attempt(r06_5, prog, rep)
 
 
 # ------------------------------------------------------------------------------
